@@ -29,8 +29,8 @@ def gen_history(rng, steps, ndisp, nthreads, flavour):
     out = []
     nextd = 1
     while len(out) < steps:
-        held = [d for d, h in handle.items() if h in ("held", "static")]
-        droppable = [d for d, h in handle.items() if h == "held"]       # a static collector is never dropped
+        held = [d for d, h in handle.items() if h in ("held", "static", "none")]
+        droppable = [d for d, h in handle.items() if h in ("held", "none")]       # a static collector is never dropped
         ops = ["emit"] * 8 + ["new"] * 2 + ["rebuild"]
         if held:
             ops += ["set_default"] * 3 + ["drop"] + ["set_global"] + ["flip"]
@@ -43,10 +43,15 @@ def gen_history(rng, steps, ndisp, nthreads, flavour):
         if op == "new":
             if nextd > ndisp:
                 continue
+            if rng.random() < (0.12 if flavour == "scopes" else 0.04):
+                out.append({"ev": "new_none", "d": nextd})
+                handle[nextd] = "none"
+                nextd += 1
+                continue
             st = flavour == "scopes" and rng.random() < 0.25
             # the collector may be handed to Dispatch::new behind a Box or an Arc (own forwarding impls in tracing-core)
             out.append({"ev": "new", "d": nextd, "f": rand_filter(rng, accept_all=(flavour == "scopes" and rng.random() < 0.7)), "static": st,
-                        "wrap": "" if st else rng.choice(["", "", "arc", "box"])})
+                        "wrap": "" if st else rng.choice(["", "", "arc", "box"]), "drop_emit": (not st) and rng.random() < 0.3})
             handle[nextd] = "static" if st else "held"
             nextd += 1
         elif op == "drop":
@@ -57,6 +62,8 @@ def gen_history(rng, steps, ndisp, nthreads, flavour):
             out.append({"ev": "drop", "d": d})
         elif op == "flip":
             d = rng.choice(list(handle))
+            if not any(s["ev"] == "new" and s["d"] == d for s in out):
+                continue        # the no-op collector has nothing to flip
             f = next(s["f"] for s in out if s["ev"] == "new" and s["d"] == d)
             if f["kind"] == "static":
                 continue
@@ -85,8 +92,11 @@ def gen_history(rng, steps, ndisp, nthreads, flavour):
         elif op == "panic_scopes":
             out.append({"ev": "panic_scopes", "t": t, "ds": [rng.choice(held) for _ in range(rng.randint(1, 3))]})
         else:
-            out.append({"ev": "emit", "t": t, "c": {"lvl": rng.randint(1, 5), "tgt": rng.choice(TGTS)},
-                        "k": rng.choice(["event", "event", "span", "probe"])})
+            st = {"ev": "emit", "t": t, "c": {"lvl": rng.randint(1, 5), "tgt": rng.choice(TGTS)},
+                  "k": rng.choice(["event", "event", "span", "probe"])}
+            if st["k"] == "event" and rng.random() < 0.06:
+                st["boom"] = True       # the receiving collector's callback panics (caught); later emissions are unaffected
+            out.append(st)
     return out
 
 
